@@ -99,3 +99,42 @@ Lemma last_snoc {A} (l:list A) (x d:A) : last (l ++ [x]) d = x.
 Proof. apply last_last. Qed.
 Lemma last_opt_snoc {A} (l:list A) (x:A) : last_opt (l ++ [x]) = Some x.
 Proof. destruct l as [|a l]; [reflexivity|]. cbn [app last_opt]. f_equal. apply last_snoc. Qed.
+
+Lemma aligned_split {A} (k:nat) : forall (n:nat) (a:list A), length a = n * k ->
+  exists ls, a = concat ls /\ Forall (fun s => length s = k) ls /\ length ls = n.
+Proof.
+  induction n as [|n IH]; intros a H.
+  - destruct a; [|discriminate]. exists []. repeat split. constructor.
+  - destruct (IH (skipn k a)) as (ls & E & F & N). { rewrite skipn_length. lia. }
+    exists (firstn k a :: ls). split; [|split].
+    + cbn [concat]. rewrite <- E. symmetry. apply firstn_skipn.
+    + constructor; [rewrite firstn_length; lia|exact F].
+    + cbn [length]. lia.
+Qed.
+
+Lemma chunks_app_aligned {A} (k:nat) (a b:list A) : k > 0 -> length a mod k = 0 ->
+  chunks k (a ++ b) = chunks k a ++ chunks k b.
+Proof.
+  intros Hk Hm. destruct (aligned_split k (length a / k) a) as (ls & E & F & N).
+  { pose proof (Nat.div_mod (length a) k ltac:(lia)). lia. }
+  rewrite E at 1 2. rewrite chunks_app by assumption. rewrite chunks_concat by assumption. reflexivity.
+Qed.
+
+Lemma chunks_length_aligned {A} (k:nat) (a:list A) : k > 0 -> length a mod k = 0 -> length (chunks k a) = length a / k.
+Proof.
+  intros Hk Hm. destruct (aligned_split k (length a / k) a) as (ls & E & F & N).
+  { pose proof (Nat.div_mod (length a) k ltac:(lia)). lia. }
+  rewrite E at 1. rewrite chunks_concat by assumption. exact N.
+Qed.
+
+Lemma firstn_plus {A} (a b:nat) (x:list A) : firstn (a + b) x = firstn a x ++ firstn b (skipn a x).
+Proof.
+  revert x; induction a as [|a IH]; intros x; cbn [Nat.add firstn skipn app]; [reflexivity|].
+  destruct x as [|y x]; [rewrite firstn_nil; reflexivity|]. cbn [firstn skipn app]. rewrite IH. reflexivity.
+Qed.
+
+Lemma skipn_plus {A} (a b:nat) (x:list A) : skipn b (skipn a x) = skipn (a + b) x.
+Proof.
+  revert x; induction a as [|a IH]; intros x; cbn [Nat.add skipn]; [reflexivity|].
+  destruct x as [|y x]; [rewrite skipn_nil; reflexivity|]. apply IH.
+Qed.
